@@ -255,10 +255,13 @@ fn scalar_cmp_null_short_circuit(
     v1: &ScalarValue,
     v2: &ScalarValue,
 ) -> Option<ScalarValue> {
-    match (v1, v2) {
-        (ScalarValue::Null, ScalarValue::Null) => Some(ScalarValue::Null),
-        (ScalarValue::Null, other) | (other, ScalarValue::Null) => Some(other.clone()),
-        _ => None,
+    // An accumulator that has not seen a value yet evaluates to a *typed* NULL
+    // (e.g. `Int64(NULL)`), which must be treated like `ScalarValue::Null`.
+    match (v1.is_null(), v2.is_null()) {
+        (true, true) => Some(ScalarValue::Null),
+        (true, false) => Some(v2.clone()),
+        (false, true) => Some(v1.clone()),
+        (false, false) => None,
     }
 }
 
